@@ -15,7 +15,8 @@ EXTENDS Infer, Json
 CONSTANTS MaxSamples, Emit, UniverseId
 
 \* ---- string universe (ids are grounded against the real parsers by the harness)
-Acc == [sA |-> {}, sB |-> {}, sLong |-> {},
+\* (sC is concretised as the comma-join of sA and sB: literal sets are keyed by a string built from their members)
+Acc == [sA |-> {}, sB |-> {}, sC |-> {}, sLong |-> {},
         sInt |-> {"IntString", "FloatString", "IsoTimeString"}, sFlt |-> {"FloatString", "IsoTimeString"}, sBool |-> {"BooleanString"},
         sDate |-> {"IsoDateString", "IsoDatetimeString"},
         a |-> {}, b |-> {}, c |-> {}, d |-> {}]
@@ -30,13 +31,15 @@ Envs == [default  |-> EnvBase,
          nofloat  |-> [EnvBase EXCEPT !.reg = <<"IntString", "BooleanString">>, !.repl = {}],
          dkf      |-> [EnvBase EXCEPT !.dkf = {"a"}],
          dkr      |-> [EnvBase EXCEPT !.ndkr = 1, !.dkrm = [a |-> {}, b |-> {}, c |-> {1}, d |-> {}]],
-         dkfdkr   |-> [EnvBase EXCEPT !.dkf = {"a"}, !.ndkr = 1, !.dkrm = [a |-> {}, b |-> {}, c |-> {1}, d |-> {}]]]
+         dkfdkr   |-> [EnvBase EXCEPT !.dkf = {"a"}, !.ndkr = 1, !.dkrm = [a |-> {}, b |-> {}, c |-> {1}, d |-> {}]],
+         \* two overlapping patterns: "c" matches both, "d" only the second (an object {c, d} is a mapping by the second one)
+         dkr2     |-> [EnvBase EXCEPT !.ndkr = 2, !.dkrm = [a |-> {}, b |-> {}, c |-> {1, 2}, d |-> {2}]]]
 
 Atoms == {VNull, VInt, VFloat, VBool, VStr("sA"), VStr("sB"), VStr("sLong"),
           VStr("sInt"), VStr("sFlt"), VStr("sBool"), VStr("sDate")}
 Objs1 == {VObj(<<>>, <<>>), VObj(<<"c">>, <<VInt>>), VObj(<<"c">>, <<VStr("sA")>>), VObj(<<"c">>, <<VNull>>),
           VObj(<<"d">>, <<VInt>>), VObj(<<"c", "d">>, <<VInt, VNull>>)}
-Lists1 == {VList(<<>>), VList(<<VNull>>), VList(<<VInt>>), VList(<<VInt, VStr("sA")>>), VList(<<VStr("sInt"), VStr("sFlt")>>),
+Lists1 == {VList(<<>>), VList(<<VNull>>), VList(<<VInt>>), VList(<<VInt, VStr("sA")>>), VList(<<VStr("sA"), VStr("sB")>>), VList(<<VStr("sC")>>), VList(<<VStr("sInt"), VStr("sFlt")>>),
            VList(<<VList(<<>>)>>), VList(<<VObj(<<"c">>, <<VInt>>)>>),
            VList(<<VObj(<<"c">>, <<VInt>>), VObj(<<"d">>, <<VStr("sB")>>)>>), VList(<<VInt, VNull>>)}
 ValsSmall == Atoms \cup {VObj(<<>>, <<>>), VObj(<<"c">>, <<VInt>>), VList(<<>>), VList(<<VNull>>), VList(<<VInt>>)}
